@@ -171,6 +171,28 @@ def drive : List String → String
       | .ok recs => "ok " ++ showRecs recs
       | .error e => "raise " ++ e.name
     | _, _, _ => "bad-arg"
+  | ["irbuild", ir, st, md, tt, fan, sw, cur] =>       -- SwitcherBreezeRemote(ir).build_command(…)
+    match parseIrSet ir, int? tt with
+    | some irs, some t => match mkRemote irs with
+      | .error e => "ctor-raise " ++ e.name
+      | .ok r => match buildCommand r st md t fan sw (optTok cur) with
+        | .ok c => s!"ok {String.ofList c.command} {String.ofList c.length}"
+        | .error e => "raise " ++ e.name
+    | _, _ => "bad-arg"
+  | ["irswing", ir, sw] =>
+    match parseIrSet ir with
+    | some irs => match mkRemote irs with
+      | .error e => "ctor-raise " ++ e.name
+      | .ok r => match buildSwingCommand r sw with
+        | .ok c => s!"ok {String.ofList c.command} {String.ofList c.length}"
+        | .error e => "raise " ++ e.name
+    | none => "bad-arg"
+  | ["ircaps", ir] =>
+    match parseIrSet ir with
+    | some irs => match mkRemote irs with
+      | .error e => "ctor-raise " ++ e.name
+      | .ok r => s!"caps modes={",".intercalate r.supportedModes} min={r.minTemp} max={r.maxTemp} toggle={if r.onOffType then 1 else 0} sepswing={if r.separatedSwing then 1 else 0} id={encText r.remoteId}"
+    | none => "bad-arg"
   | "op" :: rest => runOpLine rest
   | _ => "bad-op"
 
